@@ -9,7 +9,16 @@ import lib
 THEOREM = 'C16_history (Props/C16.v): each query of a history yields its solo result (rbql-js leg: solo = the same query through a freshly loaded rbql-js)'
 
 
-def scenario(r):
+# failing kinds: the ERROR of a query is part of its outcome ("after any sequence of other, possibly failing, queries").  The syn_* kinds are
+# queries the JavaScript engine rejects while COMPILING the generated code, written the way an SQL user would write them (FROM, LIKE, HAVING,
+# and / or): the reported error is then built from the engine's message AND from a scan of the query text, i.e. by code that runs only for
+# failing queries and only after every earlier step succeeded - state kept by that scan (a position, a cache, a counter) shows only when a
+# LATER query fails the same way, with its keyword at the same or a smaller offset.
+FAILING = ('attr_bad', 'attr_bad_late', 'attr_bad_b', 'dict_bad', 'runtime_error', 'syntax_error', 'parse_error', 'bad_field',
+           'syn_from', 'syn_like', 'syn_having', 'syn_and', 'syn_or', 'syn_like_from', 'syn_and_or', 'syn_from_named', 'syn_plain')
+
+
+def scenario(r, only=None):
     n = r.randint(1, 4)
     hdr = r.choice([['name', 'score'], ['score', 'name'], ['name', 'score', 'country']])
     A = [[r.choice(['a', 'b', 'k']) if h != 'score' else str(r.randint(1, 9)) for h in hdr] for _ in range(n)]
@@ -45,7 +54,18 @@ def scenario(r):
         ('syntax_error', 'select a1 +', False, False),
         ('parse_error', 'update set a1 = "z" order by a1', False, False),
         ('bad_field', 'update set a7 = "z"', False, False),
+        ('syn_from', 'select %sa1, a2 from mytable' % pad, False, False),
+        ('syn_like', "select %s* where a1 LIKE 'a%%'" % pad, False, False),
+        ('syn_having', 'select %sa1, COUNT(*) group by a1 having COUNT(*) > 1' % pad, False, False),
+        ('syn_and', 'select %s* where a2 > "0" and a2 < "7"' % pad, False, False),
+        ('syn_or', 'select %sa1 where a1 == "a" or a1 == "b"' % pad, False, False),
+        ('syn_like_from', "select %sa1 from t where a1 like 'k%%'" % pad, False, False),
+        ('syn_and_or', 'select %s* where a1 == "a" and a2 > "3" or a1 == "k"' % pad, False, False),
+        ('syn_from_named', 'select %sa.name from input where a.score > "1"' % pad, True, False),
+        ('syn_plain', 'select %sa1 a2' % pad, False, False),
     ]
+    if only is not None:
+        pool = [x for x in pool if x[0] in only]
     kind, q, named, joined = r.choice(pool)
     if kind == 'avg_native':
         A = [[row[0], int(row[hdr.index('score')])] for row in A]
@@ -65,6 +85,34 @@ def rel(c, e, g):
     return isinstance(g, dict) and g.get('results') == e['results']
 
 
+def describe(c, e, g):
+    return 'rbql-js history %s: solo results %s, in the history %s' % (
+        [(q['q'], q['A'], q['hdrA']) for q in c['queries']], json.dumps(e)[:500], json.dumps(g)[:500])
+
+
+def eval_history(case):
+    sres = lib.run_impl_js('c16js', [{'part': 'c16js', 'queries': [q]} for q in case['queries']], shards=1)
+    exp = {'results': [x['results'][0] for x in sres]}
+    return exp, lib.run_impl_js('c16js', [case], shards=1)[0]
+
+
+def shrink(c, e, g):
+    """drop queries of the history while some query still differs from its solo result"""
+    cur, budget, changed = c, 14, True
+    while changed and budget > 0 and len(cur['queries']) > 1:
+        changed = False
+        for i in range(len(cur['queries'])):
+            budget -= 1
+            if budget <= 0:
+                break
+            cand = dict(cur, queries=cur['queries'][:i] + cur['queries'][i + 1:])
+            e1, g1 = eval_history(cand)
+            if not rel(cand, e1, g1):
+                cur, e, g, changed = cand, e1, g1, True
+                break
+    return cur, e, g
+
+
 def run(ctx, theorem=THEOREM):
     r = ctx.rng
     n = 400 if ctx.tier == 'quick' else 40000
@@ -78,6 +126,27 @@ def run(ctx, theorem=THEOREM):
             k = r.randint(0, len(qs))
             qs[k:k] = [r.choice(bad), r.choice(good)]
         hist.append({'part': 'c16js', 'queries': qs})
+    # failing queries of one family next to each other: the same failing query twice / three times in a row, the same kind with another
+    # offset and another table, two related kinds (one keyword in common), with a good or an unrelated query in between or not
+    families = [(k,) for k in FAILING] + [('syn_from', 'syn_like_from', 'syn_from_named'), ('syn_like', 'syn_like_from'), ('syn_and', 'syn_or', 'syn_and_or'),
+                                           ('attr_bad', 'attr_bad_late', 'dict_bad'), ('syntax_error', 'syn_plain', 'syn_and')]
+    for _ in range(n // 2):
+        fam = r.choice(families)
+        first = scenario(r, fam)
+        qs = [first]
+        for _k in range(r.randint(1, 3)):
+            x = r.random()
+            if x < 0.35:
+                qs.append(dict(first))                      # literally the same query again
+            elif x < 0.8:
+                qs.append(scenario(r, fam))                 # same family, other offset / table
+            else:
+                qs.append(scenario(r))
+                qs.append(scenario(r, fam))
+        if r.random() < 0.3:
+            qs.insert(0, scenario(r))
+        hist.append({'part': 'c16js', 'queries': qs})
+        ctx.stat('js_histories_failing_family')
     solos = {}
     for h in hist:
         for q in h['queries']:
@@ -91,10 +160,7 @@ def run(ctx, theorem=THEOREM):
         solo_of[k] = res['results'][0]
     exp = [{'results': [solo_of[key(q)] for q in h['queries']]} for h in hist]
     got = lib.run_impl_js('c16js', hist, shards=12)
-    ctx.compare(hist, exp, got, theorem, rel=rel,
-                describe=lambda c, e, g: 'rbql-js history %s: solo results %s, in the history %s' % (
-                    [(q['q'], q['A'], q['hdrA']) for q in c['queries']], json.dumps(e)[:500], json.dumps(g)[:500]),
-                corrupt=lambda e: {'results': e['results'] + [None]})
+    ctx.compare(hist, exp, got, theorem, rel=rel, describe=describe, shrink=shrink, corrupt=lambda e: {'results': e['results'] + [None]})
     ctx.count(sum(len(h['queries']) for h in hist) + len(solo_cases))
     ctx.stat('js_histories', len(hist))
     ctx.stat('js_solo_runs', len(solo_cases))
@@ -102,9 +168,9 @@ def run(ctx, theorem=THEOREM):
     ctx.stat('js_solo_failing_queries', nerr)
     for h in hist:
         ctx.nontriv(('c16js', tuple(key(q) for q in h['queries'])))
-    ctx.rule += ('; JavaScript leg: %d histories of 2-8 queries (28 kinds: attribute / dictionary / positional variables, DISTINCT COUNT, aggregates over native numbers and '
-                 'strings, JOIN, UPDATE, LIKE, UNNEST, EXCEPT, unknown-column / syntax / runtime / bad-field failures; a failing query placed directly before a query of the same '
-                 'family) through one freshly loaded rbql-js each, every result compared with the same query through its own freshly loaded rbql-js') % len(hist)
+    ctx.rule += ('; JavaScript leg: %d histories of 2-8 queries (37 kinds: attribute / dictionary / positional variables, DISTINCT COUNT, aggregates over native numbers and '
+                 'strings, JOIN, UPDATE, LIKE, UNNEST, EXCEPT, unknown-column / syntax / runtime / bad-field failures, queries rejected at compile time that contain FROM / LIKE / HAVING / and / or; '
+                 'a failing query placed directly before a query of the same family; failing queries of one family repeated or next to each other) through one freshly loaded rbql-js each, every result compared with the same query through its own freshly loaded rbql-js') % len(hist)
 
 
 def replay(ctx, case, theorem=THEOREM):
@@ -113,4 +179,4 @@ def replay(ctx, case, theorem=THEOREM):
     exp = [{'results': [x['results'][0] for x in sres]}]
     got = lib.run_impl_js('c16js', [case], shards=1)
     ctx.count()
-    ctx.compare([case], exp, got, theorem, rel=rel)
+    ctx.compare([case], exp, got, theorem, rel=rel, describe=describe)
